@@ -31,10 +31,14 @@ fn main() {
         if ctx != "-" {
             settings.set_user_context_type(ctx);
         }
-        let code = match Grammar::from_str(&text) {
+        let code = std::panic::catch_unwind(std::panic::AssertUnwindSafe(|| match Grammar::from_str(&text) {
             Err(e) => Err(format!("parse error at {}: {:?}", e.position, e.specifics)),
             Ok(g) => g.generate_code(&settings).map_err(|e| format!("{e:#}")),
-        };
+        }))
+        .unwrap_or_else(|p| {
+            let m = p.downcast_ref::<String>().cloned().or_else(|| p.downcast_ref::<&str>().map(|s| s.to_string()));
+            Err(format!("PANIC {}", m.unwrap_or_default()))
+        });
         match code {
             Err(msg) => {
                 let _ = writeln!(front, "{id}\terror\t{}", msg.replace('\n', " ").replace('\t', " "));
